@@ -1,4 +1,4 @@
-import ProductMD.Proofs.ImagesLoadExact
+import ProductMD.Proofs.ImagesHistory
 /-!
 # C09 — image identity is unique within a manifest
 
@@ -151,6 +151,50 @@ theorem C09_load_rejects (ver : PyVal) (vt : VerT) (hvt : versionTuple ver = .ok
     rw [hcells] at hu
     exact hck (hu i hi j hj hid)
 
+/-! ### histories that cross the version gate on one object
+
+`dumps()` sets the header to the current version, `loads` replaces it, a caller may assign it: the version is part
+of the state.  Below 1.1 nothing is checked, so `Uniq` is not an invariant of such histories; what holds, for ANY
+state however it was produced, is that a step taken at an enforcing version creates no new colliding pair. -/
+
+/-- an `add` accepted at an enforcing version: the new image collides with nothing in the manifest — including images
+that entered while the gate was closed (the scan looks at the real content of `self.images`) -/
+theorem C09_add_guard (s s' : ImgState) (v a : Str) (id : Nat) (img : Image) (hv : Enforces s.version)
+    (h : add s v a id img = (s', .ok ())) :
+    ∀ cur ∈ s'.cells.all, SameIdentity cur img → PyEq cur.checksums img.checksums := by
+  have hc := add_ok_noconflict s s' v a id img hv h
+  have hcells := add_ok_cells s s' v a id img h
+  have := (conflict_false_iff _ _).mp (conflict_after_insert (v := v) (a := a) (id := id) hc)
+  rw [hcells]
+  exact this
+
+/-- **per step, any state**: every colliding pair present after an `add` at an enforcing version (accepted or
+refused) was already present before it -/
+theorem C09_no_new_pair (s : ImgState) (v a : Str) (id : Nat) (img : Image) (hv : Enforces s.version) :
+    NoNewPairs s.cells (add s v a id img).1.cells := add_noNewPairs s v a id img hv
+
+/-- `dumps()` does not touch the images and leaves the header at the current version, which enforces the scan — also
+when it raises (the header is set before anything can fail) -/
+theorem C09_dumps_enforces (s : ImgState) : (dumps s).1.cells = s.cells ∧ Enforces (dumps s).1.version := by
+  rw [dumps_state]
+  exact ⟨rfl, cur_enforces⟩
+
+/-- **gate-crossing histories**: for any sequence of `add` / `dumps` / `header.version = …` / `loads`-into-the-same-
+object in which every `add` and `loads` happens at an enforcing version (of the object at that moment, resp. of
+the document), every colliding pair of the final manifest was already in the initial one … -/
+theorem C09_history_pairs (s : ImgState) (ops : List HOp) (h : EnforcedRun s ops) :
+    NoNewPairs s.cells (ops.foldl (fun s op => (hstep s op).1) s).cells := run_noNewPairs ops s h
+
+/-- … hence from a unique manifest (e.g. the empty one) the result is unique -/
+theorem C09_history (s : ImgState) (ops : List HOp) (h : EnforcedRun s ops) (hu : Uniq s.cells) :
+    Uniq (ops.foldl (fun s op => (hstep s op).1) s).cells := uniq_of_noNewPairs (run_noNewPairs ops s h) hu
+
+/-- `loads` of an enforcing document into an object in use keeps a unique manifest unique -/
+theorem C09_load_into (doc : PyVal) (s0 s : ImgState) (n0 : Nat)
+    (hv : ∀ ver, headerDeserialize doc = .ok ver → Enforces ver) (hu : Uniq s0.cells)
+    (h : deserializeInto s0 n0 doc = .ok s) : Uniq s.cells :=
+  uniq_of_noNewPairs (loadInto_noNewPairs doc s0 s n0 hv h) hu
+
 /-- **identity**: for an image that validates (hence can be written), the identity computed from the object
 equals the identity computed from its serialised dictionary (which lacks `unified` / `additional_variants`
 unless the image is unified) -/
@@ -200,6 +244,16 @@ theorem C09_witness_refused :
   decide +kernel
 
 example : witnessA.validate = .ok () := by decide +kernel
+
+/-- crossing the gate: on a fresh `Images()` (header 0.0) `witnessA` is added, `dumps()` is called (it raises here —
+the compose section is empty — but has already set the header to the current version), then the colliding
+`witnessB` is refused with ValueError; without the `dumps()` it is accepted (`C09_below_witness`) -/
+theorem C09_cross_witness :
+    (hstep (hstep (hstep ImgState.fresh (.add ⟨L "Server", L "x86_64", 0, witnessA⟩)).1 .dumps).1
+      (.add ⟨L "Client", L "i386", 1, witnessB⟩)).2 = .error .valueError
+    ∧ (hstep (hstep (hstep ImgState.fresh (.add ⟨L "Server", L "x86_64", 0, witnessA⟩)).1 (.setVersion (.str (L "1.1")))).1
+      (.add ⟨L "Client", L "i386", 1, witnessB⟩)).2 = .error .valueError := by
+  decide +kernel
 /-- hypotheses of `C09_load_rejects`: 1.2 and 2.0 headers have `old = false`, a 1.1 header has `old = true` and enforces -/
 example : versionTuple (.str (L "1.2")) = .ok (.nums (1, 2)) ∧ gateEval Gen.gate_images_Images_deserialize_0 (.nums (1, 2)) = .ok false
     ∧ gateEval Gen.gate_images_Images_deserialize_0 (.nums (2, 0)) = .ok false
